@@ -23,14 +23,14 @@ PROPS = {
                 GEN + "C01 histories use only equality-respecting cutoffs and pure map_with_old machines (the property's proviso); "
                 "non-trivial = distinct history with at least two successful observer reads and one node function invocation",
                 c01_safe=True),
-    "C02": spec(["IncrVerif.Props.C02", "IncrVerif.Props.C03Order", "IncrVerif.Props.C01Global", "IncrVerif.Props.C01History", "IncrVerif.Props.C03Nested"], [("bind", 0.5), ("general", 0.3), ("static", 0.2)], ["api", "ev", "read"],
+    "C02": spec(["IncrVerif.Props.C02", "IncrVerif.Props.C03Order", "IncrVerif.Props.C01Global", "IncrVerif.Props.C01History", "IncrVerif.Props.C03Nested", "IncrVerif.Props.C17History"], [("bind", 0.5), ("general", 0.3), ("static", 0.2)], ["api", "ev", "read"],
                 GEN + "both build profiles (in debug builds a glitch usually trips a debug assertion first; release builds show the "
                 "stale arguments); non-trivial = distinct history in which node functions ran",
                 builds=("debug", "release"), nq=200),
-    "C06": spec(["IncrVerif.Props.C06", "IncrVerif.Props.C01Global", "IncrVerif.Props.C01History", "IncrVerif.Props.C01MapRef"], [("static", 0.25), ("general", 0.35), ("bind", 0.25), ("varw", 0.15)], ["api", "ev", "read"],
+    "C06": spec(["IncrVerif.Props.C06", "IncrVerif.Props.C01Global", "IncrVerif.Props.C01History", "IncrVerif.Props.C01MapRef", "IncrVerif.Props.C06History"], [("static", 0.25), ("general", 0.35), ("bind", 0.25), ("varw", 0.15)], ["api", "ev", "read"],
                 GEN + "all cutoff kinds on all node kinds incl. vars, equal-value writes, unobserve/re-observe; "
                 "non-trivial = distinct history in which node functions ran"),
-    "C14": spec(["IncrVerif.Props.C14", "IncrVerif.Props.C14History"], [("expert", 1.0)], ["api", "ev", "read", "snap"],
+    "C14": spec(["IncrVerif.Props.C14", "IncrVerif.Props.C14History", "IncrVerif.Props.C14Drivers"], [("expert", 1.0)], ["api", "ev", "read", "snap"],
                 GEN + "profile expert: expert nodes (sum of dependencies / sum of what the edge callbacks stored) with scripted drivers: "
                 "join/bind pattern (select one of several targets by the driver's input, always or only when new), add + remove by position, "
                 "duplicate dependencies on one child, make_stale, dependencies added from outside while observed, observer churn; "
@@ -39,7 +39,7 @@ PROPS = {
                 GEN + "both build profiles; generations are reconstructed from the trace (closure runs in order, consecutive node indices); "
                 "non-trivial = distinct history in which a bind closure ran at least twice",
                 builds=("debug", "release"), nq=200),
-    "C04": spec(["IncrVerif.Props.C04", "IncrVerif.Props.C01History", "IncrVerif.Props.C03Nested"], [("general", 0.3), ("bind", 0.3), ("expert", 0.2), ("subs", 0.1), ("varw", 0.1)],
+    "C04": spec(["IncrVerif.Props.C04", "IncrVerif.Props.C01History", "IncrVerif.Props.C03Nested", "IncrVerif.Props.C17History", "IncrVerif.Props.C06History"], [("general", 0.3), ("bind", 0.3), ("expert", 0.2), ("subs", 0.1), ("varw", 0.1)],
                 ["api"], GEN + "both build profiles (debug assertions on and off); non-trivial = distinct history in which node functions ran",
                 builds=("debug", "release"), nq=200),
     "C05": spec(["IncrVerif.Props.C05", "IncrVerif.Props.C01History"], [("general", 0.3), ("bind", 0.3), ("expert", 0.25), ("life", 0.15)], ["api", "ev", "stats"],
@@ -56,13 +56,13 @@ PROPS = {
                 GEN + "the model's full snapshot (heights, timestamps, validity, necessity, ordered parent lists with child indices, children, "
                 "handler counts, heap buckets in order, counters) is compared with verif_snapshot() after EVERY action, and verif_audit() "
                 "(index arrays position by position, heap markers, handler counts) must be silent; non-trivial = distinct history in which node functions ran"),
-    "C15": spec(["IncrVerif.Props.C15", "IncrVerif.Props.C15History"], [("maps", 1.0)], ["api", "ev", "read", "snap"],
+    "C15": spec(["IncrVerif.Props.C15", "IncrVerif.Props.C15History", "IncrVerif.Props.C17History"], [("maps", 1.0)], ["api", "ev", "read", "snap"],
                 "profile maps: incr_filter_mapi / incr_unordered_fold (plain and with update, with and without revert-to-init) / incr_merge / "
                 "incr_partition_mapi on BTreeMap, Rc<BTreeMap> and OrdMap inputs (each operator on the map types it is defined for) through the real "
                 "engine: two map-valued vars, 1-3 operator instances, 4-14 edits per history (insert / delete / change / empty / refill / equal map "
                 "written again), observe / unobserve / re-observe of the outputs; non-trivial = distinct history in which an operator's user function was called",
                 nq=200, nt=8000),
-    "C17": spec(["IncrVerif.Props.C17", "IncrVerif.Props.C15History"], [("maps", 0.7), ("perkey", 0.3)], ["api", "ev"],
+    "C17": spec(["IncrVerif.Props.C17", "IncrVerif.Props.C15History", "IncrVerif.Props.C17History"], [("maps", 0.7), ("perkey", 0.3)], ["api", "ev"],
                 "profiles maps and perkey: every call of a user function (with key, arguments, role and result) is logged on both sides and compared as a "
                 "sequence; holds_C17 checks the calls against the keys that differ between the input the operator last ran on and the current one; "
                 "non-trivial = distinct history in which an operator's user function was called",
